@@ -19,6 +19,13 @@ dequeued it.  A non-ULT waiter may re-take and release the lock inside its wait 
 `rel` carries the snapshot of the object taken when the lock word is cleared (counter, num_waiters,
 wait-list empty?): it must equal the model state.
 
+The futex generation word of the wait-list (`waitlist.futex.val`, Linux-futex build) is part of the model because
+the barrier is re-initialised while slow waiters are still leaving: a non-ULT waiter samples the word under the lock
+before it sleeps (`fsamp`: `original_val` of ABTD_futex_wait_and_unlock) and sleeps `while (val == original_val)`;
+a broadcast that dequeued at least one non-ULT waiter (`wny` = the local `wakeup_nonyieldable`) increments the word
+before the lock is released (`fbump`); nothing else ever writes it — in particular not ABT_barrier_reinit.  `obsF` is
+any other load of the word.
+
 Ghost state: `round` (number of completed rounds = counter resets), `entered k` (calls counted into
 round k), `need k` (num_waiters in effect for round k), `roundOf a` (round of a's current call).
 -/
@@ -57,6 +64,9 @@ inductive Ev
   | reinit (n : Nat) (rc : Rc)
   | obsLock (v : Bool)
   | obs (counter : Nat) (nw : Nat)      -- snapshot taken inside a critical section (at the futex-word store of the broadcast)
+  | fsamp (a : Actor) (v : Nat)         -- non-ULT waiter, lock held: original_val = load(futex.val)
+  | fbump (a : Actor) (v : Nat)         -- broadcaster: futex.val = current_val + 1 (then FUTEX_WAKE)
+  | obsF (v : Nat)                      -- any other load of futex.val (the sleeper's re-check, the broadcaster's read)
 deriving Repr
 
 structure St where
@@ -70,10 +80,13 @@ structure St where
   entered : Nat → Nat         -- ghost
   need : Nat → Nat            -- ghost
   roundOf : Actor → Nat       -- ghost
+  fval : Nat                  -- waitlist.futex.val (generation counter of the futex)
+  samp : Actor → Nat          -- the value a non-ULT waiter sampled before it went to sleep
+  wny : Bool                  -- wakeup_nonyieldable of the broadcast in progress: an increment of fval is due
 
 def init (kind : Actor → Kind) (nw : Nat) : St :=
   { kind, nw, counter := 0, lock := none, q := [], pc := fun _ => .idle, round := 0,
-    entered := fun _ => 0, need := fun _ => 0, roundOf := fun _ => 0 }
+    entered := fun _ => 0, need := fun _ => 0, roundOf := fun _ => 0, fval := 0, samp := fun _ => 0, wny := false }
 
 def setPc (s : St) (a : Actor) (p : Pc) : St := { s with pc := upd s.pc a p }
 
@@ -114,7 +127,8 @@ def stepEnq (s : St) (a : Actor) : Option St :=
 
 def stepWake (s : St) (a n : Actor) : Option St :=
   match s.pc a, s.q with
-  | .csLast, h :: t => if h = n then some (setPc { s with q := t } n .woken) else none
+  | .csLast, h :: t =>
+    if h = n then some (setPc { s with q := t, wny := if s.kind n = .ult then s.wny else true } n .woken) else none
   | _, _ => none
 
 /-- the state a critical section leaves behind must equal the snapshot taken at the lock release -/
@@ -127,14 +141,21 @@ def stepRel (s : St) (a : Actor) (c nw : Nat) (e : Bool) : Option St :=
   | .reW => chk (setPc { s with lock := none } a .waiting) c nw e
   | .reR => chk (setPc { s with lock := none } a .woken) c nw e
   | .csLast =>
-    -- the broadcast loop ran until the list was empty; then `counter = 0`, then the release
-    if s.q = [] then chk (setPc { s with lock := none, counter := 0, round := s.round + 1 } a .done) c nw e
+    -- the broadcast loop ran until the list was empty (and bumped the futex word if it had to); then `counter = 0`,
+    -- then the release
+    if s.q = [] ∧ s.wny = false then chk (setPc { s with lock := none, counter := 0, round := s.round + 1 } a .done) c nw e
     else none
   | _ => none
 
 def stepReinit (s : St) (n : Nat) (rc : Rc) : Option St :=
   if n = 0 then (if rc = .errInvArg then some s else none)
   else if rc = .ok ∧ s.counter = 0 then some { s with nw := n } else none
+
+def stepFsamp (s : St) (a : Actor) (v : Nat) : Option St :=
+  if (s.pc a = .csEnq ∨ s.pc a = .reW) ∧ s.kind a ≠ .ult ∧ v = s.fval then some { s with samp := upd s.samp a v } else none
+
+def stepFbump (s : St) (a : Actor) (v : Nat) : Option St :=
+  if s.pc a = .csLast ∧ s.q = [] ∧ s.wny = true ∧ v = s.fval + 1 then some { s with fval := v, wny := false } else none
 
 def step (s : St) : Ev → Option St
   | .call a => stepCall s a
@@ -146,6 +167,9 @@ def step (s : St) : Ev → Option St
   | .reinit n rc => stepReinit s n rc
   | .obsLock v => if v = s.lock.isSome then some s else none
   | .obs c nw => if c = s.counter ∧ nw = s.nw then some s else none
+  | .fsamp a v => stepFsamp s a v
+  | .fbump a v => stepFbump s a v
+  | .obsF v => if v = s.fval then some s else none
 
 def machine (kind : Actor → Kind) (nw : Nat) : Machine St Ev :=
   { init := init kind nw, step := step }
